@@ -32,10 +32,28 @@ def template(rng, kind):
     raise KeyError(kind)
 
 
+def same_payload_roles(rng):
+    """The same 20 / 32 bytes (and the same key) in every role they can play, back to back and again later: a result must depend on
+    the script at hand only, never on what was evaluated before."""
+    import hashlib
+    for _ in range(6):
+        key = pubkey(rng, rng.choice([33, 65]))
+        h = hashlib.new("ripemd160", hashlib.sha256(key).digest()).digest()
+        h32 = rbytes(rng, 12) + h
+        roles = [b"\x76\xa9\x14" + h + b"\x88\xac", b"\xa9\x14" + h + b"\x87", b"\x00\x14" + h, push(key) + b"\xac", b"\x6a" + push(h),
+                 b"\x00\x20" + h32, b"\x51\x20" + h32, b"\xa9\x14" + h + b"\x87", b"\x76\xa9\x14" + h + b"\x88\xac"]
+        order = list(roles)
+        rng.shuffle(order)
+        for sc in roles + order:
+            yield sc
+
+
 def fam_templates(rng, n):
     for k in TEMPLATES:
         for _ in range(n):
             yield "template:" + k, template(rng, k)
+    for sc in same_payload_roles(rng):
+        yield "template:same-payload-roles", sc
 
 
 def fam_mutations(rng, full=True, stride=1):
@@ -233,6 +251,15 @@ def fam_fork_templates(rng, big=False):
             q = list(parts)
             q[slot] = push(rbytes(rng, ln), rng.choice(["p2", "p4"]))
             yield "fork:long-slot:" + name, b"".join(q)
+    for sc in same_payload_roles(rng):
+        yield "fork:same-payload-roles", sc
+    # numbers of the 2-of-3 template given as data pushes instead of OP_2 / OP_3: five data tokens + OP_CHECKMULTISIG is not the template
+    k3 = [push(pubkey(rng, 33)) for _ in range(3)]
+    for m_ in (b"\x52", b"\x01\x02", b"\x4c\x01\x02", b"\x02\x02\x00"):
+        for n_ in (b"\x53", b"\x01\x03", b"\x4c\x01\x03", b"\x02\x03\x00"):
+            if (m_, n_) != (b"\x52", b"\x53"):
+                yield "fork:multisig-pushed-number", m_ + b"".join(k3) + n_ + b"\xae"
+                yield "fork:multisig-pushed-number", m_ + b"\x61" + b"".join(k3) + b"\xb1" + n_ + b"\xae"
     # PUSHDATA edge cases
     for op, w in ((0x4C, 1), (0x4D, 2), (0x4E, 4)):
         yield "fork:pushdata-edge", bytes([op])
